@@ -154,8 +154,8 @@ def w_func(pid, tier, seed, job):
         ctx.agree("container_logical", {"len": len(w), "head": w[:20].hex()}, got, ("ok", bytes(mv)))
     for d in datas:
         pad = d + bytes((-len(d)) % 2048)
-        ctx.require("the user-data view of the 2352 wrapping is the zero-padded image", {"len": len(d)}, impl_logical(AW.wrap_2352(d)) == pad, None)
-        ctx.require("the view of the MDX wrapping is the image", {"len": len(d)}, impl_logical(AW.wrap_mdx(d)) == d, None)
+        ctx.require("the user-data view of the 2352 wrapping is the zero-padded image", {"len": len(d)}, M.impl_res(impl_logical, AW.wrap_2352(d)) == ("ok", pad), None)
+        ctx.require("the view of the MDX wrapping is the image", {"len": len(d)}, M.impl_res(impl_logical, AW.wrap_mdx(d)) == ("ok", d), None)
     return ctx.dump()
 
 
